@@ -329,9 +329,20 @@ impl Ranking {
         let corpus = corpus_recs();
         let similar = cx.rng.chance(1, 2);
         let n = if similar { cx.rng.range(2, 8) } else { cx.rng.range(2, 30) };
-        let (recs, family) = if similar { similar_recs(&mut cx.rng, lang, n) } else { (crowded_recs(&mut cx.rng, lang, n, &corpus, true), vec![]) };
+        let (mut recs, family) = if similar { similar_recs(&mut cx.rng, lang, n) } else { (crowded_recs(&mut cx.rng, lang, n, &corpus, true), vec![]) };
         if similar {
             cx.count("stores of similar words");
+        }
+        if cx.rng.chance(1, 8) {
+            // C07 bounds the ratings only by "pairwise distinct": the upper half of the 32-bit range the
+            // WASM target can pass (order-preserving shift, distinct stays distinct)
+            let top = recs.iter().map(|r| r.2).max().unwrap_or(0);
+            if top < (1usize << 31) {
+                for r in recs.iter_mut() {
+                    r.2 += 1usize << 31;
+                }
+                cx.count("stores with ratings in [2^31, 2^32)");
+            }
         }
         let limit = *cx.rng.pick(&[n, n + 1, 10.max(n / 10 + 1), (n + 9) / 10, n.max(3) / 3 + 1]);
         let limit = limit.max((n + 9) / 10); // |store| <= 10*limit
@@ -502,8 +513,24 @@ impl Ranking {
             }
             // identical titles: higher rating first; equal rating: 'u' before 'u x'
             for order in 0..2 {
-                let (r1, r2) = (cx.rng.below(1usize << 31), cx.rng.below(1usize << 31));
+                // far apart, adjacent at every magnitude, or both small
+                let (r1, r2) = match cx.rng.below(4) {
+                    0 => (cx.rng.below(1usize << 31), cx.rng.below(1usize << 31)),
+                    1 => {
+                        let r = cx.rng.below((1usize << 31) - 1);
+                        (r, r + 1)
+                    }
+                    2 => {
+                        let bits = cx.rng.range(1, 30);
+                        let r = cx.rng.below(1usize << bits);
+                        (r, r + cx.rng.range(1, 3))
+                    }
+                    _ => (cx.rng.below(2000), cx.rng.below(2000)),
+                };
                 if r1 != r2 {
+                    if r1.max(r2) - r1.min(r2) <= 3 {
+                        cx.count("identical titles with ratings 1-3 apart");
+                    }
                     let (hi, lo) = (r1.max(r2), r1.min(r2));
                     let q = if cx.rng.chance(1, 2) { u.clone() } else { s(&uc[..cx.rng.range(1, uc.len())]) };
                     let t = if cx.rng.chance(1, 2) { u.clone() } else { format!("{} {}", u, x) };
@@ -560,7 +587,16 @@ impl Ranking {
     }
 
     fn rule_case(&self, cx: &mut Cx, lang: &'static str, rule: &str, q: &str, better: &str, worse: &str, rb: usize, rw: usize, order: usize) {
-        let recs: Vec<Rec> = if order == 0 { vec![(1, better.to_string(), rb), (2, worse.to_string(), rw)] } else { vec![(2, worse.to_string(), rw), (1, better.to_string(), rb)] };
+        let mut recs: Vec<Rec> = if order == 0 { vec![(1, better.to_string(), rb), (2, worse.to_string(), rw)] } else { vec![(2, worse.to_string(), rw), (1, better.to_string(), rb)] };
+        if cx.rng.chance(1, 4) {
+            // a bystander: a third, unrelated record with an extreme rating must not change the order of the two
+            let alpha = if lang == "ru" { cv("щыэюя") } else { cv("y") };
+            let t = format!("{}{}", gen::rand_word(&mut cx.rng, &alpha, 3, 6), cx.rng.below(10));
+            let r = *cx.rng.pick(&[(1usize << 31) - 1, 2_000_000_000, 0, 1 << 30]);
+            let at = cx.rng.below(3);
+            recs.insert(at.min(recs.len()), (3, t, r));
+            cx.count("rule cases with a third, unrelated record");
+        }
         cx.ctx(format!("C08 {} lang={} q={:?} recs={:?}", rule, lang, q, recs));
         let st = St::build_sentinel(lang, &recs, 10);
         let got = st.search(q);
@@ -579,7 +615,8 @@ impl Ranking {
     }
 
     fn empty(&self, cx: &mut Cx, lang: &'static str) {
-        let words = ["metal", "mailbox", "b", "a", "aa", "ab", "Zed", "für", "élan", "Ёж", "éclair", "e\u{301}clair", "zz", "straße", "strasse"];
+        let words = ["metal", "mailbox", "b", "a", "aa", "ab", "Zed", "für", "élan", "Ёж", "éclair", "e\u{301}clair", "zz", "straße", "strasse",
+            "𠮷野家", "吉野家", "𐌰𐌱", "🎁x", "ﬁx", "ab𝐀", "abc𠮷", "abcd"];
         let n = match cx.rng.below(60) {
             0 => *cx.rng.pick(&[200usize, 257, 300, 600, 1200]),
             1..=10 => cx.rng.range(13, 60),
@@ -727,8 +764,8 @@ impl Prop for Ranking {
     fn floors(&self) -> Vec<(&'static str, u64, u64)> {
         match self.0 {
             Which::Verdicts => vec![("truncated (more matches than limit)", 200, 2000), ("beyond the 10x cap (soundness only)", 100, 1000), ("limit 0", 50, 500), ("selection buffer refilled (matches >= 2*limit)", 100, 1000), ("store with tied ratings (set comparison)", 50, 500), ("empty query", 50, 500), ("corpus-store searches", 100, 2000), ("corpus-store searches compared with the unlimited corpus store", 10, 200), ("large stores (limit 50-200)", 400, 8000), ("large stores whose match count is an exact multiple of the limit", 20, 400), ("stores of more than 2048 records", 8, 160)],
-            Which::Order => vec![("pair stores", 2000, 20000), ("permuted stores", 2000, 20000), ("searches with >= 2 hits", 300, 3000), ("truncated lists compared across permutations", 30, 300), ("stores of similar words", 500, 5000), ("pairs involving a hit ranked 7th or lower", 300, 3000), ("large stores (limit 50-200)", 200, 4000), ("stores of more than 2048 records", 4, 80)],
-            Which::Rules => vec![("rule exact>typo", 500, 5000), ("rule both>one", 500, 5000), ("rule prefix: exact>tail", 500, 5000), ("rule adjacent>gap", 500, 5000), ("rule first>second", 500, 5000), ("rule identical titles: rating decides", 300, 3000), ("rule equal rating: shorter title first", 300, 3000), ("rule function word: content word first", 1000, 10000), ("u made of two function words run together", 300, 3000)],
+            Which::Order => vec![("pair stores", 2000, 20000), ("permuted stores", 2000, 20000), ("searches with >= 2 hits", 300, 3000), ("truncated lists compared across permutations", 30, 300), ("stores of similar words", 500, 5000), ("pairs involving a hit ranked 7th or lower", 300, 3000), ("large stores (limit 50-200)", 200, 4000), ("stores of more than 2048 records", 4, 80), ("stores with ratings in [2^31, 2^32)", 200, 2000)],
+            Which::Rules => vec![("rule exact>typo", 500, 5000), ("rule both>one", 500, 5000), ("rule prefix: exact>tail", 500, 5000), ("rule adjacent>gap", 500, 5000), ("rule first>second", 500, 5000), ("rule identical titles: rating decides", 300, 3000), ("rule equal rating: shorter title first", 300, 3000), ("rule function word: content word first", 1000, 10000), ("u made of two function words run together", 300, 3000), ("rule cases with a third, unrelated record", 20000, 200000), ("identical titles with ratings 1-3 apart", 1000, 10000)],
             Which::Empty => vec![("searches after further adds", 1000, 10000), ("truncated lists with tied ratings", 500, 5000), ("stores with distinct ratings", 500, 5000), ("limit 0", 100, 1000), ("stores of 13-60 records", 1000, 10000), ("stores whose titles share a prefix of 20-40 characters", 1500, 15000)],
         }
     }
